@@ -18,11 +18,14 @@ META = dict(
     'rejected and changes nothing.',
     bounds=dict(K='1/2', states='<= 3 shells, <= 3 samples per shell'),
     functions=['sampler.py:Sampler.run', 'discard_exploration setter',
+               'Sampler.write / write_shell_update / resume (toggle before '
+               'a batch, toggle after a resume)',
                'Sampler.update_shell_info', 'Sampler.posterior',
                'Sampler.add_samples'],
     stubs=common.SAMPLER_STUBS,
-    outside=['toggle after a resume from file is covered by C05 (file '
-             'mirrors state)'],
+    outside=['more than one toggle between two batches; histories longer '
+             'than toggle - batch - resume - toggle (each link is one of the '
+             'inductive steps checked)'],
     assumptions=[])
 
 TOG = 'harness.sampler_toggle:toggle'
@@ -52,6 +55,12 @@ def jobs(tier):
                     n_batch=1, K=1), pkg_key='sampler', max_paths=8000,
                split=9)
            for d in (False, True)]
+    # toggle between two run() slices, then a batch, then a resume
+    mir += [Job('harness.sampler_file:mirror',
+                dict(m=[1, 1], explored=True, end_exp=[1, 1], discard=disc,
+                     n_batch=1, K=1, toggle_before=True),
+                pkg_key='sampler', max_paths=8000, split=9)
+            for disc in (False, True)]
     return (common.run_jobs(tier, ['C12'], which=('explored', 'end', 'bound'))
             + toggle_jobs(tier) + common.add_samples_jobs(tier, ['C12'])
             + mir)
